@@ -107,6 +107,7 @@ type afCase struct {
 	Overlap     int            `json:"overlap,omitempty"`     // back-channel requests of several callers in flight at once (rounds)
 	ProvRedeem  []afProvRedeem `json:"provRedeem,omitempty"`  // direct provider.Redeem calls instead of a step list
 	ConfigCheck bool           `json:"configCheck,omitempty"` // the configuration-validation check instead of a step list
+	HD          string         `json:"hd,omitempty"`          // Google hosted-domain setting of the deployment (a sign-in hint)
 	Domains     []string       `json:"domains"`               // allowed e-mail domains
 	Addresses   []string       `json:"addresses"`             // or addresses
 	Roots       []string       `json:"roots"`                 // proxy root domains
@@ -214,7 +215,8 @@ func newAfWorld(c afCase) (*afWorld, error) {
 	cfg.AuthorizeConfig.EmailConfig.Addresses = c.Addresses
 	cfg.AuthorizeConfig.ProxyConfig.Domains = c.Roots
 	cfg.ProviderConfigs = map[string]auth.ProviderConfig{
-		"google": {ProviderType: "google", ProviderSlug: "google", ClientConfig: auth.ClientConfig{ID: "g-id", Secret: "g-secret"}, GroupCacheConfig: cfg.GroupCacheConfig},
+		"google": {ProviderType: "google", ProviderSlug: "google", ClientConfig: auth.ClientConfig{ID: "g-id", Secret: "g-secret"}, GroupCacheConfig: cfg.GroupCacheConfig,
+			GoogleProviderConfig: auth.GoogleProviderConfig{HostedDomain: c.HD}},
 		"okta": {ProviderType: "okta", ProviderSlug: "okta", ClientConfig: auth.ClientConfig{ID: "o-id", Secret: "o-secret"},
 			OktaProviderConfig: auth.OktaProviderConfig{OrgURL: "idp.okta.test"}, GroupCacheConfig: cfg.GroupCacheConfig},
 	}
@@ -402,6 +404,11 @@ func (w *afWorld) step(st *afStep) M {
 			sig = ""
 		case "wrongsecret":
 			sig = afSig("not-the-secret", sg.URI, ts)
+		case "emptykey":
+			// a correct MAC over the right bytes — keyed with the empty string (an unset "second" secret)
+			sig = afSig("", sg.URI, ts)
+		case "keyisuri":
+			sig = afSig(sg.URI, sg.URI, ts)
 		case "sigforother":
 			sig = afSig(afProxySecret, "https://other.x.io/oauth2/callback", ts)
 		case "shift-digit":
@@ -507,6 +514,12 @@ func (w *afWorld) step(st *afStep) M {
 			code = mk(w.cookieCi["google"], 600, 3000)
 		case "garbage":
 			code = "bm90LWEtY29kZQ"
+		case "genuine-respelled":
+			// a genuine code with a line break inside its text: not a string this service ever sealed
+			g := mk(w.codeCi, 600, 3000)
+			code = g[:len(g)/2] + "\r\n" + g[len(g)/2:]
+		case "genuine-trailing-lf":
+			code = mk(w.codeCi, 600, 3000) + "\n"
 		case "jarcookie":
 			// the value of the session cookie this very service last set for the browser (google), presented as a code
 			code = w.jar["google"]
